@@ -28,7 +28,18 @@ def run(rep, tier):
     rep.explanation = "Bounded model checking of evaluate_v with a counting input iterator (laziness/order) against the running-maximum index rule."
     rep.bounds = {"(segments,arguments)": "up to (3,3) quick; (4,4),(5,3) thorough", "outside": "longer sequences / more segments"}
     run_e1(rep, specs(tier))
+    from props import ctrl_obl
+    from engine import E2
+    e = E2(rep, tier)
+    sizes = [(6, 3), (9, 3), (5, 4)] if tier == "quick" else [(6, 3), (9, 3), (5, 4), (16, 4), (24, 3), (8, 5)]
+    rep.bounds["(segments,arguments)_mir"] = [list(x) for x in sizes]
+    ctrl_obl.c12_obligations(e, sizes, real=True)
+    ctrl_obl.c12_obligations(e, [(2, 2), (3, 2)], real=False)
+    e.finish()
 
 
 def replay(path):
+    if path.endswith(".json"):
+        from props.c02 import ctrl_replay
+        return ctrl_replay(path)
     return replay_cmd(path)
